@@ -115,7 +115,7 @@ def reference(inp, fabric, regime, perm):
                 beta[k] = r * Abs(r) ** (n - 1)
         else:
             g_act = Guard("cmp", "Gt", Abs(Is[3]), lift(1e-15))
-            beta = [ZERO, ZERO, ZERO, alg.Fn("select", g_act.key(), ONE, ZERO)]
+            beta = [ZERO, ZERO, ZERO, alg.Fn("select", g_act.astuple(), ONE, ZERO)]
         beta = [alg.let(b) for b in beta]
         G = np.empty((3, 3), dtype=object)
         for i in range(3):
